@@ -24,10 +24,14 @@ _SOURCE = [
     "V.C12.success_sound",
     "V.C12.success_sound_spec",
     "V.C12.wasValidAt_spec",
+    "V.C12.strict_within_validity",
     "V.C12.success_complete",
     "V.C12.fetch_minimal",
     "V.C12.stores_fetched",
     "V.C12.checkKeys_spec",
+    "V.C12.publicKey_valid",
+    "V.C12.publicKey_spec",
+    "V.C12.publicKey_answer",
     "V.C12.checkKeys_keys",
     "V.C12.fetcher_accepts_iff",
     "V.C12.direct_accepts",
@@ -47,7 +51,10 @@ CONFIG = {
             "database script (error, empty, full, partial, mixed: good / wrong key / wrong length / expired / stale / fresh / no validity, "
             "unrequested extras) x 0-3 fetcher scripts (same menu) x store failure x request timestamps on every boundary of the key's "
             "validity profile (expired_ts-1/=/+1, valid_until_ts-1/=/+1 exact; now and now+7d with 10 min margins) x strict/lenient; "
-            "plus WasValidAt boundaries, CheckKeys / PublicKey on crafted key responses (exact boundaries of valid_until_ts / expired_ts), "
+            "request timestamps and valid_until_ts at 2^63-1 / 2^63 / 2^64-1 (spec.Timestamp is unsigned); "
+            "plus WasValidAt boundaries (the same huge values for at_ts / valid_until_ts / expired_ts), CheckKeys / PublicKey on crafted key "
+            "responses (exact boundaries of valid_until_ts / expired_ts; PublicKey judged by a specification column: current key iff "
+            "at <= valid_until_ts, old key iff at < expired_ts, old-key boundary expired_ts-1/=/+1 generated), "
             "DirectKeyFetcher (direct answer, notary fallback) and PerspectiveKeyFetcher (notary signature known / unknown / wrong) on "
             "scripted KeyClients; non-trivial = a key was needed (the database was asked) or a key-response op; distinct by op line",
     "nontrivial": lambda op, impl: not op.startswith("keyring.verify_jsons") or "|db:none" not in impl,
@@ -59,7 +66,11 @@ CONFIG = {
         "Go map iteration order: the model is order-insensitive (proved for the result: `checkSigs_eq_any`)",
     ],
     "assumptions": [
-        "timestamps below 2^63 ms (Timestamp.Time() converts through int64)",
+        "timestamps are unsigned 64-bit millisecond counts; the validity arithmetic of the key ring is modelled and proved over all "
+        "naturals (no 2^63 bound; generator includes 2^63-1, 2^63, 2^64-1). Remaining int64 conversion: CheckKeys' "
+        "`keys.ValidUntilTS.Time().After(now)` — the model's `valid_until_ts > now` is exact for valid_until_ts below 2^63 "
+        "(a response with a larger valid_until_ts is REFUSED by the code: failing safe, not generated)",
+        "the clock reading plus seven days is below 2^63 ms (spec.AsTimestamp(time.Now().Add(7d)) does not wrap)",
         "one clock reading per call: the model uses a single `now`; the harness keeps every clock comparison >= 10 minutes from its boundary",
         "ValidityCheckingFunc is StrictValiditySignatureCheck or NoStrictValidityCheck (a nil function panics inside WasValidAt: caller error)",
         "the fetchers check key responses against time.Unix(0,0), not the clock: the property's 'valid_until_ts in the future' is stated "
